@@ -27,8 +27,5 @@ def run(ctx):
 def replay(ctx, path):
     tr = os.path.join(path, 'trace.ndjson')
     bad, evs = ctx.monitor_all('tso', 'Mon_TSO', 'Mon_TSO.cfg', tr, 'replay')
-    for b in bad:
-        if b[1] in T.C02:
-            ctx.report(b[1], T.classify(b, evs), tr, None, None, 'replay')
-            break
+    T.handle_bad(ctx, T.C02, bad, evs, 'replay')
     return ctx.finish()
